@@ -63,6 +63,7 @@ fn is_node_inside_function<'a>(node: &impl NodeTrait<'a>) -> bool {
     | Some(Node::FnExpr(_))
     | Some(Node::ArrowExpr(_))
     | Some(Node::ClassMethod(_))
+    | Some(Node::MethodProp(_))
     | Some(Node::PrivateMethod(_)) => true,
     None => false,
     Some(n) => is_node_inside_function(&n),
